@@ -272,8 +272,37 @@ def _run_sharded(cmd_of_shard, lines, nshards, timeout, env=None):
 
 
 def run_impl(exe, case_lines, nshards=NCPU, timeout=1200):
-    outs = _run_sharded(lambda i: [exe], case_lines, nshards, timeout)
-    return collect(outs, 'implementation harness')
+    """Runs the harness; a case on which the implementation does not return (the harness watchdog prints
+    'HANG <id>' and exits with status 3) is recorded as the line 'hang <id> HANG' and the cases after it are run in a
+    fresh process."""
+    by_case, problems = {}, []
+    pending = list(case_lines)
+    rounds = 0
+    while pending and rounds < 40:
+        rounds += 1
+        outs = _run_sharded(lambda i: [exe], pending, nshards, timeout)
+        n = max(1, min(nshards, len(pending)))
+        shards = [pending[i::n] for i in range(n)]
+        again = []
+        clean = []
+        for (rc, o, er), sl in zip(outs, shards):
+            mh = re.search(r'HANG (\d+)', er or '')
+            if rc == 3 and mh:
+                hid = mh.group(1)
+                ids = [case_id(x) for x in sl]
+                k = ids.index(hid) if hid in ids else len(ids) - 1
+                o = '\n'.join(ln for ln in o.splitlines() if ln.split(' ', 2)[1:2] != [hid])
+                o += '\nhang %s HANG the implementation did not return within the watchdog time\n' % hid
+                again += sl[k + 1:]
+                clean.append((0, o, ''))
+            else:
+                clean.append((rc, o, er))
+        bc, pr = collect(clean, 'implementation harness')
+        for k2, v in bc.items():
+            by_case.setdefault(k2, []).extend(v)
+        problems += pr
+        pending = again
+    return by_case, problems
 
 
 def run_model(case_lines, buf=1024, nshards=NCPU, timeout=1200):
